@@ -292,6 +292,8 @@ pub fn run_exmodel(a: &Args) {
             out.case_tagged(r, &imp, "replay");
             out.finish(); return;
         }
+        if parts[0].trim() == "psp" { let imp = crate::exm_psp::replay(&parts); out.case_tagged(r, &imp, "replay"); out.finish(); return; }
+        if parts[0].trim() == "alp" { let imp = crate::exm_alp::replay(&parts); out.case_tagged(r, &imp, "replay"); out.finish(); return; }
         if parts[0].trim() == "misp" {
             let imp = replay_misp(&parts);
             out.case_tagged(r, &imp, "replay");
@@ -322,5 +324,7 @@ pub fn run_exmodel(a: &Args) {
     }
     gen_misp_cases(&mut out, &mut rng, if a.thorough { 12000 } else { 1500 });
     crate::exm_max2sat::generate(&mut out, &mut rng, if a.thorough { 6000 } else { 600 });
+    crate::exm_alp::generate(&mut out, &mut rng, if a.thorough { 6000 } else { 600 });
+    crate::exm_psp::generate(&mut out, &mut rng, if a.thorough { 6000 } else { 600 });
     out.finish();
 }
